@@ -86,4 +86,97 @@ theorem lockstep_exact (encStep : σ → S → σ × E) (decStep : σ → E → 
     (decAll decStep s (encAll encStep s xs).2).2 = xs := by
   exact (AllRel.eq (lockstep encStep decStep Eq inv ok hstep s xs hs hx).2.1).symm
 
+/-! ### variable-length, partial steps over a residual symbol stream
+
+  JPEG-LS run mode consumes a variable number of samples per step, steps can fail, and the
+  decoder reads from one undivided bit stream.  Encoder and decoder share the state type `σ`
+  (the state holds what the DECODER knows: reconstructed samples, statistics).  One encoder
+  step consumes a non-empty prefix of the pending samples and emits symbols; the decoder step,
+  told how many samples are still pending, consumes exactly those symbols. -/
+section Var
+variable {σ S B ε : Type}
+
+/-- iterate the encoder step until no sample is pending (`fuel` bounds the number of steps) -/
+def encAllV (e0 : ε) (encStep : σ → List S → Except ε (List B × σ × List S)) :
+    Nat → σ → List S → Except ε (List B × σ)
+  | 0, _, _ => .error e0
+  | n + 1, s, todo =>
+    if todo.isEmpty then .ok ([], s) else
+    match encStep s todo with
+    | .error e => .error e
+    | .ok (ws, s', todo') =>
+      match encAllV e0 encStep n s' todo' with
+      | .error e => .error e
+      | .ok (ws2, sf) => .ok (ws ++ ws2, sf)
+
+/-- iterate the decoder step until the announced number of samples is reconstructed -/
+def decAllV (e0 : ε) (decStep : σ → Nat → List B → Except ε (σ × Nat × List B)) :
+    Nat → σ → Nat → List B → Except ε (σ × List B)
+  | 0, _, _, _ => .error e0
+  | n + 1, s, remaining, bs =>
+    if remaining = 0 then .ok (s, bs) else
+    match decStep s remaining bs with
+    | .error e => .error e
+    | .ok (s', remaining', bs') => decAllV e0 decStep n s' remaining' bs'
+
+/-- if every encoder step from a state satisfying `inv` succeeds, consumes at least one sample,
+    re-establishes `inv`, and is undone by the decoder step (same successor state, same number of
+    samples left, following symbols untouched), then decoding the whole symbol sequence reaches
+    the encoder's final state and leaves what follows -/
+theorem lockstep_var (e0 : ε) (encStep : σ → List S → Except ε (List B × σ × List S))
+    (decStep : σ → Nat → List B → Except ε (σ × Nat × List B)) (inv : σ → List S → Prop)
+    (hstep : ∀ s todo, todo ≠ [] → inv s todo →
+      ∃ ws s' todo', encStep s todo = .ok (ws, s', todo') ∧ todo'.length < todo.length ∧ inv s' todo' ∧
+        ∀ rest, decStep s todo.length (ws ++ rest) = .ok (s', todo'.length, rest)) :
+    ∀ (fuel : Nat) (s : σ) (todo : List S), todo.length < fuel → inv s todo →
+      ∃ ws sf, encAllV e0 encStep fuel s todo = .ok (ws, sf) ∧ inv sf [] ∧
+        ∀ rest, decAllV e0 decStep fuel s todo.length (ws ++ rest) = .ok (sf, rest)
+  | 0, _, _, h, _ => by omega
+  | n + 1, s, todo, hf, hi => by
+    cases todo with
+    | nil => exact ⟨[], s, by simp [encAllV], hi, fun rest => by simp [decAllV]⟩
+    | cons x xs =>
+      obtain ⟨ws, s', todo', he, hlt, hi', hd⟩ := hstep s (x :: xs) (by simp) hi
+      obtain ⟨ws2, sf, he2, hif, hd2⟩ := lockstep_var e0 encStep decStep inv hstep n s' todo' (by omega) hi'
+      refine ⟨ws ++ ws2, sf, ?_, hif, ?_⟩
+      · simp only [encAllV, List.isEmpty_cons, Bool.false_eq_true, if_false, he, he2]
+      · intro rest
+        have hne : (x :: xs).length ≠ 0 := by simp
+        simp only [decAllV, hne, if_false]
+        rw [List.append_assoc, hd (ws2 ++ rest)]
+        exact hd2 rest
+
+/-- an encoder step with its emitted symbols re-labelled through `f` -/
+def mapSym {C : Type} (f : List B → List C) (encStep : σ → List S → Except ε (List B × σ × List S)) :
+    σ → List S → Except ε (List C × σ × List S) :=
+  fun s t => match encStep s t with
+    | .error e => .error e
+    | .ok (ws, s', t') => .ok (f ws, s', t')
+
+/-- re-labelling the emitted symbols through a monoid morphism commutes with the iteration -/
+theorem encAllV_map {C : Type} (f : List B → List C) (hnil : f [] = []) (happ : ∀ a b, f (a ++ b) = f a ++ f b)
+    (e0 : ε) (encStep : σ → List S → Except ε (List B × σ × List S)) :
+    ∀ (n : Nat) (s : σ) (todo : List S),
+      encAllV e0 (mapSym f encStep) n s todo =
+        match encAllV e0 encStep n s todo with
+        | .error e => .error e
+        | .ok (ws, sf) => .ok (f ws, sf)
+  | 0, _, _ => rfl
+  | n + 1, s, todo => by
+    simp only [encAllV]
+    by_cases he : todo.isEmpty
+    · simp [he, hnil]
+    · simp only [he, Bool.false_eq_true, if_false]
+      cases hs : encStep s todo with
+      | error e => simp [mapSym, hs]
+      | ok r =>
+        obtain ⟨ws, s', t'⟩ := r
+        simp only [mapSym, hs]
+        rw [encAllV_map f hnil happ e0 encStep n s' t']
+        cases encAllV e0 encStep n s' t' with
+        | error e => simp
+        | ok r2 => obtain ⟨ws2, sf⟩ := r2; simp [happ]
+
+end Var
+
 end Lockstep
